@@ -100,6 +100,20 @@ func implSlice(c core.Case) []string {
 					xs = append(xs, x)
 				}
 				return fmt.Sprintf("%v %v", xs, s.Values)
+			case len(t) == 2 && t[0] == "popalln":
+				// the consumer leaves the range loop after k >= 1 received elements
+				k, ok := atoi(t[1])
+				if !ok || k < 1 || strings.HasPrefix(t[1], "-") {
+					return "bad-op"
+				}
+				xs := []int{}
+				for x := range s.PopAll() {
+					xs = append(xs, x)
+					if len(xs) == k {
+						break
+					}
+				}
+				return fmt.Sprintf("%v %v", xs, s.Values)
 			}
 			return "bad-op"
 		})
@@ -249,6 +263,36 @@ func checkSlice(c core.Case, out []string) *core.Failure {
 				return fail("slice-popall-sorted", i, c, out, "PopAll is not sorted")
 			}
 			ref = nil
+		case "popalln":
+			// leaving the loop after k elements = k Pops (fewer when the heap runs dry):
+			// the yielded ones are minima of the reference multiset, one after the other
+			kk, _ := atoi(t[1])
+			k2 := strings.Index(out[i], "]")
+			xs, ok := parseInts(out[i][:k2+1])
+			if !ok {
+				return fail("slice-format", i, c, out, "unparsable")
+			}
+			if want := min(kk, len(ref)); len(xs) != want {
+				return fail("slice-popalln-count", i, c, out, "the loop left after %d elements on a heap of %d must have received %d, received %d", kk, len(ref), want, len(xs))
+			}
+			ref = append([]int{}, ref...)
+			for _, x := range xs {
+				var present bool
+				if ref, present = msRemove(ref, x); !present {
+					return fail("slice-popalln-foreign", i, c, out, "yielded value %d was not in the heap", x)
+				}
+			}
+			if !sortedBy(xs, cmp) {
+				return fail("slice-popalln-sorted", i, c, out, "the yielded elements are not sorted")
+			}
+			if len(xs) > 0 {
+				// (sorted: nothing that precedes an earlier one can fail to precede the last)
+				for _, x := range []int{xs[0], xs[len(xs)-1]} {
+					if y, bad := msPrecedes(ref, x, cmp); bad {
+						return fail("slice-popalln-min", i, c, out, "remaining %d precedes the yielded %d", y, x)
+					}
+				}
+			}
 		}
 		if !sameMultiset(vals, ref) {
 			return fail("slice-multiset", i, c, out, "Values must hold exactly the multiset %v", ref)
@@ -305,6 +349,25 @@ func simIndex(r *core.Rand, sim *hSim) int {
 	return pickIndex(r, len(sim.arr[0]))
 }
 
+// pickStop: after how many received elements the consumer leaves `range PopAll()` on a heap of
+// n: the first, the middle, the last but one, the last (heap just empty), beyond (full drain).
+func pickStop(r *core.Rand, n int) int {
+	k := 1
+	switch r.Pick(25, 20, 15, 15, 10, 15) {
+	case 1:
+		k = n / 2
+	case 2:
+		k = n - 1
+	case 3:
+		k = n
+	case 4:
+		k = n + 3
+	case 5:
+		k = r.Range(1, n+1)
+	}
+	return max(k, 1)
+}
+
 func genSlice(r *core.Rand) core.Case {
 	g := &tagger{}
 	cn := pickCmp(r)
@@ -340,7 +403,13 @@ func genSlice(r *core.Rand) core.Case {
 		if n < target {
 			pushW = 40
 		}
-		switch r.Pick(pushW, 18, 3, 2, 22, 12, 6, 1, 10) {
+		switch r.Pick(pushW, 18, 3, 2, 22, 12, 6, 1, 10, 3) {
+		case 9:
+			k := pickStop(r, n)
+			lines = append(lines, fmt.Sprintf("popalln %d", k))
+			for ; k > 0 && len(sim.arr[0]) > 0; k-- {
+				sim.pop(0, 'p')
+			}
 		case 0:
 			v := val()
 			lines = append(lines, fmt.Sprintf("push %d", v))
